@@ -18,6 +18,9 @@ import (
 	"github.com/benhoyt/goawk/parser"
 	"pgregory.net/rapid"
 
+	"verif/lib/awk"
+	"verif/lib/awkgen"
+	"verif/lib/bclint"
 	"verif/lib/h"
 	"verif/lib/sandbox"
 )
@@ -499,7 +502,75 @@ func runBytes(x *h.Ctx, c ByteCase) string {
 	return ""
 }
 
+// ---------------------------------------------------------------- static well-formedness of the emitted code
+
+// LintCase is one program whose compiled form is checked, for all inputs at
+// once, by the static pass in lib/bclint.
+type LintCase struct {
+	Profile string `json:"profile"`
+	Src     h.Str  `json:"src"`
+}
+
+func genLint(t *rapid.T) LintCase {
+	profile := rapid.SampledFrom([]string{"hostile", "hostile", "exec", "exec", "syntax", "syntax", "io", "types"}).Draw(t, "profile")
+	switch profile {
+	case "hostile":
+		return LintCase{profile, h.Str(genHostile(t).Src)}
+	case "exec":
+		return LintCase{profile, h.Str(awk.RenderProgram(awkgen.NewExec(t).Program(), awk.Minimal))}
+	case "syntax":
+		return LintCase{profile, h.Str(awk.RenderProgram(awkgen.NewSyn(t).Program(), awk.Minimal))}
+	case "io":
+		return LintCase{profile, h.Str(awk.RenderProgram(awkgen.NewIOGen(t).Program(), awk.Minimal))}
+	default:
+		p := awkgen.GenTProg(t)
+		return LintCase{profile, h.Str(awkgen.DefaultNaming(p).Render(p))}
+	}
+}
+
+func runLint(x *h.Ctx, c LintCase) string {
+	prog, err := parser.ParseProgram([]byte(c.Src), nil)
+	if err != nil {
+		x.Discard("program rejected by the parser (" + c.Profile + ")")
+		return ""
+	}
+	probs, n, err := bclint.Lint(prog)
+	if err != nil {
+		x.Discard("static pass not applicable: " + err.Error())
+		return ""
+	}
+	x.Class("profile-" + c.Profile)
+	if n >= 10 {
+		x.Nontrivial("")
+	}
+	if len(probs) > 0 {
+		return fmt.Sprintf("the emitted code of an accepted program is not well formed:\n  %s\nprogram:\n%s", strings.Join(probs, "\n  "), h.Trunc(strings.TrimPrefix(string(c.Src), prelude), 3000))
+	}
+	return ""
+}
+
+// every AWK program that ships in the repository's testdata
+func enumRepoPrograms(thorough bool, yield func(LintCase) bool) {
+	root := h.RepoDir()
+	var files []string
+	for _, pat := range []string{"testdata/*", "testdata/*/*", "testdata/*/*/*"} {
+		m, _ := filepath.Glob(filepath.Join(root, pat))
+		files = append(files, m...)
+	}
+	for _, f := range files {
+		b, err := os.ReadFile(f)
+		if err != nil || len(b) == 0 || len(b) > 200000 {
+			continue
+		}
+		if !yield(LintCase{"repo:" + strings.TrimPrefix(f, root+"/"), h.Str(b)}) {
+			return
+		}
+	}
+}
+
 func init() {
+	h.Prop("emitted_code_wellformed", 12000, 300000, genLint, runLint)
+	h.Enum("emitted_code_wellformed_repo_programs", enumRepoPrograms, runLint)
 	h.PropIsolated("hostile_programs", 24000, 400000, genHostile, runHostile)
 	h.PropIsolated("named_conditions_are_errors", 4000, 40000, genNamed, runNamed)
 	h.PropIsolated("byte_inputs_config_matrix", 16000, 300000, genBytes, runBytes)
